@@ -928,6 +928,10 @@ impl PacketNumberFilter {
 /// Ensures we can always fit all our ACKs in a single minimum-MTU packet with room to spare
 const MAX_ACK_BLOCKS: usize = 64;
 
+/// `MAX_ACK_BLOCKS`, readable by the verification hooks
+#[cfg(quinn_rs_quinn_verif)]
+pub(super) const VERIF_MAX_ACK_BLOCKS: usize = MAX_ACK_BLOCKS;
+
 #[cfg(test)]
 mod test {
     use super::*;
